@@ -6,31 +6,47 @@
 // optional additive term, no prior / QuadraticPrior (default weights, 2D weights, custom weights, kappa, beta = 0) /
 // a QuadraticPrior whose surrogate curvature is declared (and made) image dependent (recompute branch) /
 // a prior that is not a PriorWithParabolicSurrogate (error branch); every legal number of subsets; alpha, gamma,
-// upper bound, enforce_initial_positivity, start subset.
+// upper bound, enforce_initial_positivity, start subset;
+// objective function: trivial normalisation / BinNormalisationFromProjData with random factors, non-TOF / TOF data (with and without
+// `use time-of-flight sensitivities`), zero_seg0_end_planes, use_subset_sensitivities on / off;
+// reconstruction: `precomputed denominator` computed / 1 / read from a file (the one set_up wrote, a user supplied one, missing and
+// mismatching ones), randomise_subset_order, inter-iteration filter (interval 1 or 2) and post filter (SeparableConvolutionImageFilter,
+// smoothing or sharpening 3-tap kernels in x and y).
 //
 // What is observed (no private member is touched):
-//  * the explicit system matrix P (ProjMatrixByBin::get_proj_matrix_elems_for_one_bin for every bin), the subset of every
-//    view/segment (detail::find_basic_vs_nums_in_subset + related view/segments), the data y and additive term a,
-//    prior weights / kappa / penalisation factor        -> `row`, `weights`, `kappa`, `cfg` lines (data for the Lean model);
+//  * the explicit system matrix P (ProjMatrixByBin::get_proj_matrix_elems_for_one_bin for every bin and TOF bin, from a matrix object
+//    of the harness' own with the same switches), the subset of every view/segment (detail::find_basic_vs_nums_in_subset + related
+//    view/segments), the data y, additive term a, normalisation factor n and zeroed flag of every bin, for TOF data without TOF
+//    sensitivities the rows of the non-TOF matrix, prior weights / kappa / penalisation factor
+//                                                          -> `row`, `srow`, `weights`, `kappa`, `cfg` lines (data for the Lean model);
 //  * D0 = *precomputed_denominator_ptr after set_up: read back from the file set_up writes
 //    (<prefix>_precomputed_denominator.hv), and independently recomputed through the public API;
 //  * every call update_estimate makes to GeneralisedObjectiveFunction::compute_sub_gradient and to
 //    PriorWithParabolicSurrogate::parabolic_surrogate_curvature (recording subclasses: argument + result);
-//  * the image before / after every update_estimate, the subset number used, the saved iterates (<prefix>_<k>.hv).
+//  * the image before / after every update_estimate and after every end_of_iteration_processing (recording override), the subset
+//    number used, the saved iterates (<prefix>_<k>.hv).
 //
 // Operations (ops file) and answers (impl file), one line each:
-//   cfg …, weights …, kappa …, row …                         -> ok
+//   cfg …, weights …, kappa …                                 -> ok
+//   row <viewgram> <subset> <y> <a> <n> <zeroed> <len> (j P_bj)*   -> ok
+//   srow <subset> <n> <zeroed> <len> (j P_bj)*               -> ok   (non-TOF sensitivity rows)
 //   sens0                                                     -> 0/1 per voxel: sensitivity == 0 (non-identifiable)
 //   setup <start> <numsubiter> <ep> | image                   -> ok | image after set_up | D0        (or `err`)
+//   setupf <start> <numsubiter> <ep> | image | characteristics of the image | of the file or `missing` | file content
+//                                                             -> ok | image after set_up | unobserved   (or `err`)
 //   d0sync | D0                                               -> ok   (model continues from the implementation's float D0)
 //   grad <subset> | x                                         -> penalised sub-gradient at x (what update_estimate obtained)
 //   curv | x                                                  -> the prior's parabolic surrogate curvature at x
-//   step <k> | before | g | curv or -                         -> <subset used> | image after update_estimate
+//   step <k> | before | g | curv or - [| subset (randomised)] -> <subset used> | image after update_estimate
+//   endit <k> | image after update_estimate                   -> image after end_of_iteration_processing (only with filters)
 //   rerun <start> <numsubiter>                                -> ok   (reconstruct() again WITHOUT set_up)
 //   endrun                                                    -> number of update_estimate calls of the run
-// Property oracle (<impl>.oracle): bounds, D0 >= 0 and equal to -H(1), ascent direction (D > 0), relaxation recovered from the
-// update and compared with alpha/(1+gamma n), n the full-iteration number; resume from every saved iterate with a fresh
-// object: later iterates bitwise equal; saved files equal the in-memory iterates.
+// Property oracle (<impl>.oracle): bounds (after update_estimate; after bound preserving filters), D0 >= 0, equal to -H(1) and to the
+// sum over the bins of the objective function, gradient equal to its definition with normalisation / TOF / zeroed end planes, ascent
+// direction (D > 0), relaxation recovered from the update and compared with alpha/(1+gamma n), n the full-iteration number; randomised
+// order: a permutation per full iteration; resume from every saved iterate with a fresh object (recomputed denominator, denominator
+// from the saved file): later iterates bitwise equal; saved files equal the in-memory iterates; denominator files that do not match
+// the image refused.
 //
 // Usage: c08_ossps <seed> <quick|thorough> <opsfile> <implfile>
 #include "common.h"
@@ -727,8 +743,9 @@ emit_step(const Case& c, const StepRec& r, const V& d0, int start, bool levelB, 
       }
   // (1b) ... and after the inter-iteration / post filter, when these map [0, ub] into itself (non-negative taps of sum <= 1;
   //      the generated taps are dyadic, so this holds in float arithmetic too).  A sharpening filter (negative side lobes) is applied
-  //      AFTER the clamp and nothing clamps again: OSSPS then hands out iterates outside the bounds; this is recorded, not judged
-  //      (filters are not in the property's quantifier; the model follows the code: Model.endOfIteration).
+  //      AFTER the clamp and nothing clamps again: OSSPS then hands out iterates outside the bounds — the one listed class
+  //      `bounds:sharpening-filter-applied-after-clamp` (the model follows the code: Model.endOfIteration,
+  //      Props.C08_in_bounds_fails_after_sharpening_filter).
   if (fin)
     {
       const bool applied_inter = c.filt && c.filt_interval > 0 && r.k % c.filt_interval == 0;
@@ -745,7 +762,13 @@ emit_step(const Case& c, const StepRec& r, const V& d0, int start, bool levelB, 
             ofail("iterate after the (bound preserving) inter-iteration / post filter outside [0, upper bound]");
         }
       else if (!inside)
-        hist["iterates_outside_bounds_after_sharpening_filter"]++;
+        {
+          hist["iterates_outside_bounds_after_sharpening_filter"]++;
+          known("bounds:sharpening-filter-applied-after-clamp",
+                "an inter-iteration / post filter with negative side lobes (SeparableConvolutionImageFilter -1/8, 5/4, -1/8 in x and y) is "
+                "applied by end_of_iteration_processing AFTER threshold_upper_lower and OSSPS does not clamp again: the iterate that is "
+                "saved and that the next sub-iteration starts from has voxels outside [0, upper bound] (upper bound " + vh::hex(ubf) + ")");
+        }
       if (applied_inter || applied_post)
         hist["filtered_iterates"]++;
     }
@@ -1413,6 +1436,7 @@ run_case(Case c, bool levelB, bool restarts, bool expect_err)
           shared_ptr<T> saved = read_from_file<T>(c.prefix + "_" + std::to_string(k) + ".hv");
           saved->set_exam_info(*b.ei);
           const V saved_v = flat(*saved);
+          const std::string saved_chars = chars_of(*saved); // the target of this set_up is the image as read back
           bool ok2 = false;
           try
             {
@@ -1431,7 +1455,7 @@ run_case(Case c, bool levelB, bool restarts, bool expect_err)
             {
               d02 = dfile_v;
               op("setupf " + std::to_string(k + 1) + " " + std::to_string(c.nsubiter) + " " + std::to_string(ep2) + " | " + hv(saved_v) + " | "
-                     + tchars + " | " + fchars + " | " + hv(dfile_v),
+                     + saved_chars + " | " + fchars + " | " + hv(dfile_v),
                  "ok | " + hv(flat(*saved)) + " | unobserved");
               ++oracle_checks;
               if (file_exists(pfx2 + "_precomputed_denominator.hv"))
